@@ -41,7 +41,7 @@ func cloneRef(m map[string][]byte) map[string][]byte {
 func runCrashWorkload(r *rng, dir string) (*crashWorkload, error) {
 	cfg := Config{LL: "store", MMPn: 8, MMPd: 10, MaxPre: 4}
 	cfg.NoSync = r.chance(1, 3)
-	cfg.Concern = r.pick([]int{3, 4, 2})
+	cfg.Concern = r.pick([]int{2, 4, 3})
 	cfg.LevelMaxSegs = 1 + r.intn(3)
 	cfg.LevelMult = 2 + r.intn(3)
 	cfg.PctN, cfg.PctD = 99, 100
@@ -49,6 +49,7 @@ func runCrashWorkload(r *rng, dir string) (*crashWorkload, error) {
 		cfg.BufPages = 1
 	}
 	cfg.CompactionSync = r.chance(1, 2)
+	cfg.SyncAfterBytes = []int{-1, -1, 0, 4096, -1}[r.intn(5)]
 	h := newH(cfg, dir)
 	h.gating = 0
 	h.files = &fileRecorder{record: true}
@@ -117,6 +118,35 @@ func runCrashWorkload(r *rng, dir string) (*crashWorkload, error) {
 		h.files.mu.Lock()
 		w.rounds = append(w.rounds, roundInfo{opsEnd: len(h.files.ops), nbatches: nb})
 		h.files.mu.Unlock()
+		// now and then: revert to the previous footer (collection closed, as documented) and go on;
+		// the reverted state counts as one more completed step of the history
+		if round >= 1 && round < rounds-1 && r.chance(1, 5) {
+			c.Close()
+			cur, _ := s.Snapshot()
+			prev, perr := s.SnapshotPrevious(cur)
+			if perr == nil && prev != nil {
+				pm, e1 := snapContent(prev)
+				if e1 == nil && s.SnapshotRevert(prev) == nil {
+					ref = map[string][]byte{}
+					for k, v := range pm {
+						ref[k] = v
+					}
+					nb++
+					w.refs = append(w.refs, cloneRef(ref))
+					h.files.mu.Lock()
+					w.rounds = append(w.rounds, roundInfo{opsEnd: len(h.files.ops), nbatches: nb})
+					h.files.mu.Unlock()
+				}
+				prev.Close()
+			}
+			cur.Close()
+			s.Close()
+			sleepMicros(5000)
+			s, c, err = moss.OpenStoreCollection(dir, so, po)
+			if err != nil {
+				return nil, err
+			}
+		}
 	}
 	c.Close()
 	s.Close()
@@ -299,7 +329,7 @@ func famCrash(w *bufio.Writer, seed uint64, n int) error {
 			}
 			points = append(points, [2]int{p, 0})
 		}
-		per := 40
+		per := 16
 		if per > n-caseID {
 			per = n - caseID
 		}
